@@ -31,14 +31,16 @@ def tables(ctx, lz, D):
             mt.append(L.lzma_stream_encoder_mt_memusage(C.byref(m)))
         q = lambda v: int(v if unit == 1 else (v + unit - 1) // unit)
         return dict(preset=preset, origDict=q(orig) if unit == 1 else orig // unit, mib=MIB // unit, st0=q(st0), st=[q(v) for v in st],
-                    mt=[q(v) for v in mt], unit=unit)
+                    mt=[q(v) for v in mt], unit=unit, auto=0)
     for p in presets:
         ents.append(entry(p, 4, 1))
     # the automatic (soft) limit of -T0: amounts in KiB so that they fit TLC's integers
     ncpu = L.lzma_cputhreads() or 1
     soft = []
-    for p in ([9] if ctx.quick else [6, 9]):
+    for p in ([6, 9] if ctx.quick else [3, 6, 9]):
         e = entry(p, ncpu, 1024)
+        # explicit limits with an automatic thread count (exact in KiB: ceil(bytes/1024) <= L  <=>  bytes <= L*1024)
+        e["auto"] = 1 if (p == 6 or not ctx.quick) and ncpu > 1 else 0
         ents.append(e)
         lim = (L.lzma_physmem() // 4) // 1024
         if all(abs(v - lim) > 2 for v in e["mt"]) and lim < UNL:
@@ -85,6 +87,9 @@ def observe(cli, plan, tabs, inp, workdir, D):
     args = [cli["xz"], "-vv", "-c", "-%d" % e["preset"]]
     if c["soft"]:
         args.append("-T0")
+    elif "spell" in c:
+        if c["spell"] == "T0":
+            args.append("-T0")
     elif c["mtOne"]:
         args.append("-T+1")
     else:
@@ -190,7 +195,7 @@ def run(ctx):
         # every distinct predicted outcome class at least once, then a random sample
         byclass = {}
         for p in hard:
-            byclass.setdefault((p["c"]["e"], tuple(sorted(p["o"]["msgs"])), p["o"]["ok"], p["o"]["mode"], p["c"]["raw"], p["c"]["noAdjust"]), []).append(p)
+            byclass.setdefault((p["c"]["e"], tuple(sorted(p["o"]["msgs"])), p["o"]["ok"], p["o"]["mode"], p["c"]["raw"], p["c"]["noAdjust"], p["c"].get("spell")), []).append(p)
         chosen = [ctx.rng.choice(v) for v in byclass.values()]
         rest = [p for p in hard if p not in chosen]
         chosen += ctx.rng.sample(rest, min(len(rest), max(0, 160 - len(chosen))))
